@@ -211,6 +211,41 @@ func c12Budget(c *rt.C) {
 			break
 		}
 	}
+	// manifest-only failures: exactly one manifest file cannot be written (the path is occupied by a
+	// directory, so ioutil.WriteFile fails), every shard write succeeds
+	for _, victim := range []string{"nitro.json", "data/files.json", "data/checksums.json", "delta/files.json", "delta/checksums.json"} {
+		if strings.HasPrefix(victim, "delta/") && !delta {
+			continue
+		}
+		dir := filepath.Join(c.Tmp, "m-"+strings.ReplaceAll(victim, "/", "_"))
+		hit := false
+		nitro.VerifSetHook(func(id int, arg unsafe.Pointer) {
+			if id == nitro.VpStoreBeforeManifest {
+				p := *(*string)(arg)
+				if rel, _ := filepath.Rel(dir, p); filepath.ToSlash(rel) == victim {
+					os.Remove(p)
+					os.MkdirAll(p, 0755)
+					hit = true
+				}
+			}
+		})
+		err := d.store(r, dir, conc)
+		nitro.VerifSetHook(nil)
+		c.Evals(1)
+		outcome := "error-returned"
+		if !hit {
+			outcome = "not-reached"
+		} else if err == nil {
+			oc, detail := d.tryLoadDir(dir, 2)
+			outcome = "success+" + oc
+			if oc != "exact" {
+				c.Violate("silent-partial-backup/manifest/"+oc, fmt.Sprintf("the write of %s failed (path not writable) but StoreToDisk returned nil; loading the directory gives: %s %s", victim, oc, detail),
+					map[string]interface{}{"failed_manifest": victim, "delta": delta, "stored_items": len(d.target.Want), "mem": mem})
+			}
+		}
+		c.Sig("manifest-failure/%s/%s/delta=%v", victim, outcome, delta)
+		os.RemoveAll(dir)
+	}
 	c.Count("byte_budgets_tried", int64(len(budgets)))
 	c.Sample(map[string]interface{}{"kind": "byte-budget", "mem": mem, "delta": delta, "stored_items": len(d.target.Want), "disk_block_size": block, "total_shard_bytes": total, "budgets": len(budgets), "concurrency": conc})
 }
@@ -462,7 +497,7 @@ func init() {
 	rt.Register(&rt.Prop{
 		ID: "C12", Level: "fault_enumeration",
 		Technique: "fault injection with runtime monitoring: (a) write failures through the shard-file write interposer (byte budgets; disk-full manifests) and hook-free through RLIMIT_FSIZE, with an injected-fault ledger; (b) crash images captured under one mutex before every file-system mutation of StoreToDisk and each fed to LoadFromDisk",
-		Rule: "case index mod 5: 0,1 = byte budgets: a reference run measures the bytes written to shard files, then budgets {0, total-1, total-4, total-5, every DiskBlockSize boundary and boundary-1 sampled, random} make every later write fail with a short write + ENOSPC (every third run the manifests cannot be written either); if a failure was consumed and StoreToDisk returns nil the directory must load to exactly the stored snapshot. 2 = the same through RLIMIT_FSIZE (real write(2) failing with EFBIG, no hooks). 3,4 = crash images: the directory is copied before every shard write, before/after every manifest write, before the final flush, before and after the close of every shard file and when the body of StoreToDisk has finished, plus derived images with an empty manifest; every image must load with an error or exactly the stored snapshot. Databases 0-3000 items, DiskBlockSize 64..64Ki, concurrency 1-8, delta on/off (with churn so delta shards are written), Go/poison memory. " +
+		Rule: "case index mod 5: 0,1 = byte budgets: a reference run measures the bytes written to shard files, then budgets {0, total-1, total-4, total-5, every DiskBlockSize boundary and boundary-1 sampled, random} make every later write fail with a short write + ENOSPC (every third run the manifests cannot be written either), plus runs in which exactly one manifest file (nitro.json, files.json, checksums.json and their delta counterparts) cannot be written while every shard write succeeds; if a failure was consumed and StoreToDisk returns nil the directory must load to exactly the stored snapshot. 2 = the same through RLIMIT_FSIZE (real write(2) failing with EFBIG, no hooks). 3,4 = crash images: the directory is copied before every shard write, before/after every manifest write, before the final flush, before and after the close of every shard file and when the body of StoreToDisk has finished, plus derived images with an empty manifest; every image must load with an error or exactly the stored snapshot. Databases 0-3000 items, DiskBlockSize 64..64Ki, concurrency 1-8, delta on/off (with churn so delta shards are written), Go/poison memory. " +
 			"evaluations = faulted backups + images loaded; distinct = (fault class, outcome, delta, block size) tuples",
 		Assumptions: []string{"process death, not power loss: bytes handed to write(2) survive, bytes still in the bufio buffer do not", "the image 'manifest exists but is empty' is derived (ioutil.WriteFile opens with O_TRUNC and writes inside the standard library)", "backups go into an empty directory, as the property states"},
 		Cases: func(t string) int {
